@@ -1,7 +1,7 @@
 SPECIFICATION Spec
 CONSTANTS
   Cls = {"P"}
-  MsgKinds = {"kwtemplate", "kwcustom", "kwattr", "kwhostile"}
+  MsgKinds = {"kwtemplate", "kwcustom", "kwattr", "kwhostile", "kwshared"}
   Outs = {"T", "F"}
   DelayCls = {}
   Vals = {"o1"}
